@@ -1332,7 +1332,7 @@ class ExtendNode(ViewRepresentation):
             return False
         if not self.reverse == other.reverse:
             return False
-        if set(self.ops.keys()) != set(other.ops.keys()):
+        if list(self.ops.keys()) != list(other.ops.keys()):
             return False
         for k in self.ops.keys():
             if not self.ops[k].is_equal(other.ops[k]):
@@ -1568,7 +1568,7 @@ class ProjectNode(ViewRepresentation):
             return False
         if not self.group_by == other.group_by:
             return False
-        if set(self.ops.keys()) != set(other.ops.keys()):
+        if list(self.ops.keys()) != list(other.ops.keys()):
             return False
         for k in self.ops.keys():
             if not self.ops[k].is_equal(other.ops[k]):
